@@ -14,12 +14,12 @@ package packet
 //@      || strcontains(errmsg(err), "use of closed file")
 
 //@ func isTemporaryError
-//@   props C20 C03 C06 C16
+//@   props C20 C03 C06 C16 C12
 //@   requires err != nil
 //@   ensures ret <==> transient(err)
 
 //@ func isUnrecoverableError
-//@   props C20 C03 C06 C16
+//@   props C20 C03 C06 C16 C12
 //@   requires err != nil
 //@   ensures ret <==> broken(err)
 
@@ -40,7 +40,7 @@ package packet
 // C07: sender stage (one decision-table row per received packet)
 //
 //@ func FreeSerializeBuffer
-//@   props C07 C01 C05 C19 C11 C13 C15 C16
+//@   props C07 C01 C05 C19 C11 C13 C15 C16 C12
 //@   observe Clear, Put
 //@   entry row clearerr: [call Clear(buf) as (e)] when e != nil && ret == e -> exit
 //@   entry row ok:       [call Clear(buf) as (e) ; call Put(_, bind_x)] when e == nil && ret == nil && x == buf -> exit
@@ -67,22 +67,22 @@ package packet
 // ---------------------------------------------------------------------------------------------
 // C15: every frame written is charged to the limiter exactly once, before the write; reading is never charged
 //@ func (*rateLimitReadWriter).WritePacketData
-//@   props C15 C07 C01 C16 C05 C11 C13 C19
+//@   props C15 C07 C01 C16 C05 C11 C13 C19 C12
 //@   observe Take, WritePacketData
 //@   entry row charged: [call Take(rw.limiter) ; call WritePacketData(rw.ReadWriter, pkt) as (e)] when ret == e -> exit
 
 //@ func NewRateLimitReadWriter
-//@   props C15 C07 C01 C16 C05 C11 C13 C19
+//@   props C15 C07 C01 C16 C05 C11 C13 C19 C12
 //@   ensures isptr(ret, rateLimitReadWriter) && asptr(ret, rateLimitReadWriter).ReadWriter == delegate && asptr(ret, rateLimitReadWriter).limiter == limiter
 
 // outer functions of sender and receiver: fresh channels, one worker goroutine each, bound to exactly these channels;
 // the error streams have room for at least 100 pending errors (their sends are unguarded: after a cancellation the
 // consumer is gone, and an unbuffered stream would block the stage on its first error)
 //@ func NewSender
-//@   props C07 C01 C05 C11 C13 C15 C16 C19
+//@   props C07 C01 C05 C11 C13 C15 C16 C19 C12
 //@   ensures isptr(ret, sender) && asptr(ret, sender).w == w
 //@ func NewReceiver
-//@   props C20 C06 C03 C16
+//@   props C20 C06 C03 C16 C12
 //@   ensures isptr(ret, receiver) && asptr(ret, receiver).sr == sr && asptr(ret, receiver).p == p
 //@ func (*sender).SendPackets
 //@   props C07 C12 C16 C19 C01 C05 C11 C13 C15
@@ -94,6 +94,6 @@ package packet
 // the rate-limited socket reads straight from the wrapped socket: the method is the embedded one (no charge, no
 // delay, frames and errors unchanged)
 //@ func (*rateLimitReadWriter).ReadPacketData
-//@   props C20 C16 C15 C06 C03
+//@   props C20 C16 C15 C06 C03 C12
 //@   observe ReadPacketData
 //@   entry row passthrough: [call ReadPacketData(recv.ReadWriter) as (d, ci, e)] when ret0 == d && ret1 == ci && ret2 == e -> exit
